@@ -16,7 +16,8 @@ macro_rules! std_headers { ($( $id:ident => $wire:literal ),* $(,)?) => {
     fn set_std(res: &mut Response, idx: usize, val: Option<String>, app: bool) {
         let mut i = 0usize;
         $( if i == idx { match (val, app) {
-            (Some(x), false) => { res.headers.set().$id(x); }
+            // a value is handed over as an owned String or as a `&'static str` (a literal of the application): the two travel as different `Cow`s
+            (Some(x), false) => { if x.len() % 2 == 0 { res.headers.set().$id(x); } else { res.headers.set().$id(util::leak(x)); } }
             (Some(x), true) => { res.headers.set().$id(append(x)); }
             (None, _) => { res.headers.set().$id(None); }
         } return } i += 1; )*
@@ -39,7 +40,10 @@ std_headers! {
     Via => "Via", XContentTypeOptions => "X-Content-Type-Options", XFrameOptions => "X-Frame-Options",
     WWWAuthenticate => "WWW-Authenticate",
 }
-const CUSTOM: &[&str] = &["X-A", "X-Custom", "X-Request-Id", "Foo", "x-lower", "X-Trace-Span-Identifier"];
+// (the last two are names of STANDARD response headers given through the by-name API `.x(name, ..)`, in two spellings: within one history such a
+//  header is then only ever touched by name -- K6 / K7 are drawn by the random generator only, which keeps Server / Vary out of the typed operations)
+const CUSTOM: &[&str] = &["X-A", "X-Custom", "X-Request-Id", "Foo", "x-lower", "X-Trace-Span-Identifier", "Server", "vary"];
+const NCUSTOM_PLAIN: usize = 6;
 
 #[derive(Clone)]
 struct Table { seed: u64 }
@@ -53,8 +57,8 @@ impl Table {
     }
     fn cust(&self, n: &str) -> &'static str {
         if let Some(k) = n.strip_prefix('K') { return CUSTOM[k.parse::<usize>().unwrap_or(0) % CUSTOM.len()] }
-        let a = (self.seed as usize / 7) % CUSTOM.len();
-        if n == "X" { CUSTOM[a] } else { CUSTOM[(a + 1) % CUSTOM.len()] }
+        let a = (self.seed as usize / 7) % NCUSTOM_PLAIN;
+        if n == "X" { CUSTOM[a] } else { CUSTOM[(a + 1) % NCUSTOM_PLAIN] }
     }
     fn val(&self, t: &str) -> String {
         let alt = self.seed % 2 == 1;
@@ -119,7 +123,7 @@ fn apply(res: &mut Response, op: &[Value], t: &Table) {
         "set" => set_std(res, t.std_idx(s(&op[1])), Some(t.val(s(&op[2]))), false),
         "app" => set_std(res, t.std_idx(s(&op[1])), Some(t.val(s(&op[2]))), true),
         "rem" => set_std(res, t.std_idx(s(&op[1])), None, false),
-        "cset" => { res.headers.set().x(t.cust(s(&op[1])), t.val(s(&op[2]))); }
+        "cset" => { let x = t.val(s(&op[2])); if x.len() % 2 == 0 { res.headers.set().x(t.cust(s(&op[1])), x); } else { res.headers.set().x(t.cust(s(&op[1])), util::leak(x)); } }
         "capp" => { res.headers.set().x(t.cust(s(&op[1])), append(t.val(s(&op[2])))); }
         "crem" => { res.headers.set().x(t.cust(s(&op[1])), None); }
         "cookie" => { let (n, val) = t.cookie(s(&op[1])); res.headers.set().SetCookie(n, val, |d| d); }
@@ -215,6 +219,8 @@ pub fn gen(rng: &mut Rng, i: usize) -> Value {
     let n = if long { rng.range(280, 620) } else { rng.range(8, 40) };
     let nstd = if long { rng.range(1, 3) } else { rng.range(2, 8) }; let stds: Vec<String> = (0..nstd).map(|_| format!("S{}", rng.below(STD.len()))).collect();
     let ncus = rng.range(1, 3); let cus: Vec<String> = (0..ncus).map(|_| format!("K{}", rng.below(CUSTOM.len()))).collect();
+    let stds: Vec<String> = { let banned: Vec<String> = cus.iter().filter_map(|c| match c.as_str() { "K6" => STD.iter().position(|n| *n == "Server"), "K7" => STD.iter().position(|n| *n == "Vary"), _ => None }).map(|k| format!("S{k}")).collect();
+                              let v: Vec<String> = stds.into_iter().filter(|x| !banned.contains(x)).collect(); if v.is_empty() { vec!["S5".to_string()] } else { v } };
     let vals: &[&str] = if long { &["p", "qq", "w", "e"] } else if i % 5 == 2 { &["p", "qq", "L", "w", "e", "u", "t", "x", "u", "t", "x"] } else { &["p", "qq", "L", "w", "e"] };
     const CODES: [u16; 57] = [200, 201, 202, 203, 204, 205, 206, 207, 208, 226, 300, 301, 302, 303, 307, 308, 400, 401, 403, 404, 405, 406, 407, 408, 409, 410, 411,
         412, 413, 414, 415, 416, 417, 418, 421, 422, 423, 424, 426, 428, 429, 431, 451, 500, 501, 502, 503, 504, 505, 506, 507, 508, 510, 511, 200, 404, 204];
@@ -227,7 +233,10 @@ pub fn gen(rng: &mut Rng, i: usize) -> Value {
         }
         let r = rng.below(100);
         let h = rng.pick(&stds).clone(); let c = rng.pick(&cus).clone(); let val = *rng.pick(vals);
-        let r = if long && r >= 74 { r % 74 } else { r };      // (long histories: header operations only, the snapshots stay small)
+        let r = if long && r >= 74 { r % 74 } else { r };
+        // (the bulk constructor files a standard name given by name under the typed header, `.x(name, ..)` does not: histories that give a standard
+        //  name by name leave the rebuild out -- what the two APIs make of one name together is not what this dimension is about)
+        let r = if (93..=94).contains(&r) && cus.iter().any(|c| c == "K6" || c == "K7") { 95 } else { r };      // (long histories: header operations only, the snapshots stay small)
         ops.push(match r {
             0..=21 => json!(["set", h, val]),
             22..=33 => json!(["app", h, if val == "e" { "p" } else { val }]),
